@@ -4,7 +4,7 @@ import vlib
 CFG = dict(
     imports=["From Verif.Common Require Import Prefix.", "From Verif.C43 Require Import Model Spec.", "Open Scope N_scope."],
     checker="check_case",
-    n=dict(quick=120, thorough=6000),
+    n=dict(quick=120, thorough=1440),
     shard=60,
     rule="histories (4-30 updates) of IP pools (IPIP/VXLAN x Always/CrossSubnet, no-encap, load-balancer-only, deleted), nodes "
          "(absent / known without IPv4 / address+subnet drawn from flat, split /25, single and nested subnet layouts, shared "
